@@ -25,7 +25,7 @@ def FrameStream_CloseWrite : List String := ["writeMu.Lock", "writeMu.Unlock", "
 def FrameStream_Read : List String := ["readMu.Lock", "readMu.Unlock", "copy", "ReadFrame", "isConnectionClosedError", "conn.MarkBroken", "isConnectionClosedError", "copy"]
 def FrameStream_Write : List String := ["writeMu.Lock", "writeMu.Unlock", "WriteFrame", "conn.MarkBroken", "WriteFrame", "conn.MarkBroken"]
 def ReadFrame : List String := ["ReadFrameFromReader"]
-def ReadFrameFromReader : List String := ["make", "io.ReadFull", "binary.BigEndian.Uint32", "coreerrors.Newf", "make", "io.ReadFull"]
+def ReadFrameFromReader : List String := ["io.ReadFull", "binary.BigEndian.Uint32", "coreerrors.Newf", "make", "io.ReadFull"]
 def WriteFrame : List String := ["coreerrors.Newf", "make", "copy", "binary.BigEndian.PutUint32", "bufs.WriteTo"]
 end Skel
 
@@ -35,8 +35,8 @@ def ReadFrameFromReader : List String := [
   "err = coreerrors.New(coreerrors.CodeNetworkError, \"reader is nil\")",
   "return",
   "end",
-  "header := make([]byte, FrameHeaderSize)",
-  "if _, err = io.ReadFull(r, header); err != nil",
+  "var header [FrameHeaderSize]byte",
+  "if _, err = io.ReadFull(r, header[:]); err != nil",
   "if err == io.EOF",
   "return",
   "end",
@@ -46,7 +46,7 @@ def ReadFrameFromReader : List String := [
   "copy(tunnelID[:], header[0:16])",
   "frameType = header[16]",
   "length := binary.BigEndian.Uint32(header[17:21])",
-  "if length > MaxFrameSize",
+  "if wireSize := FrameHeaderSize + length; wireSize > MaxFrameWireSize",
   "err = coreerrors.Newf(coreerrors.CodeInvalidPacket, \"frame too large: %d > %d\", length, MaxFrameSize)",
   "return",
   "end",
